@@ -15,7 +15,7 @@ def make_potential(rng, kind, L):
     """Returns (real potential object, oracle factory(charges)->Radial or None, params dict)."""
     if kind == "inverse_power":
         from jellyfysh.potential.inverse_power_potential import InversePowerPotential
-        p = float(rng.choice([1, 2, 3, 6, 12]))
+        p = float(rng.choice([1, 2, 3, 6, 12, 1, 2, 6, 0.5, 1.5, 2.5, 6.25]))    # the power is a float > 0, not an integer
         k = rng.choice([1.0, 1e-3, 1e-6, 1e3, 0.37]) * rng.choice([1, 1, 1, -1])
         return InversePowerPotential(power=p, prefactor=k), (lambda c1, c2: en.InversePower(k * c1 * c2, p)), \
             {"power": p, "prefactor": k, "r0": None}
